@@ -4972,6 +4972,9 @@ class ParseCtx:
             next_node = node
         return next_node
 
+# verification hook (no-op unless NMFU_VERIF=1 and an observer is installed): called with (phase, ctx)
+_verif_phase_observer = None
+
 class DfaCompileCtx:
     def __init__(self, parse_ctx: ParseCtx):
         self.state_object_spec = parse_ctx.state_object_spec
@@ -5158,12 +5161,16 @@ class DfaCompileCtx:
 
         self.dfa = self.ast.convert(defaultdict(lambda: self.generic_fail_state))
         self.dfa.add(self.generic_fail_state)
+        if _verif_phase_observer is not None and os.environ.get("NMFU_VERIF") == "1":
+            _verif_phase_observer("converted", self)
 
         while self._optimize_remove_inaccessible() + self._optimize_simplify_transition_matches() + self._optimize_shortcircuit_fallthroughs():
             pass
 
         # verify correctness of DFA
         self._verify_fallthrough_loop()
+        if _verif_phase_observer is not None and os.environ.get("NMFU_VERIF") == "1":
+            _verif_phase_observer("optimized", self)
 
 class Outputter:
     SHIFT_WIDTH = 4
